@@ -400,7 +400,7 @@ def materialise(prog):
             for it in u.items:
                 if it.get("pkg") != pkg or it["kind"] != "func":
                     continue
-                name = "Prov%d" % it["id"]
+                name = it.get("fn", "Prov%d" % it["id"])
                 params = []
                 for n, d in enumerate(it["deps"]):
                     if it["variadic"] and n == len(it["deps"]) - 1:
@@ -601,7 +601,7 @@ def set_args(u, s, frm, T, used):
         it = u.items[n]
         k = it["kind"]
         if k == "func":
-            out.append(q(it["pkg"], "Prov%d" % it["id"]))
+            out.append(q(it["pkg"], it.get("fn", "Prov%d" % it["id"])))
         elif k == "struct":
             st = u.structs[it["struct"]]
             names = ['"*"'] if it["all"] else ['"%s"' % f for f, _ in st["fields"]]
@@ -714,6 +714,17 @@ def plant(rng, u, kind):
         build["items"].append(len(u.items) - 1)
         u.src[("v", i)] = len(u.items) - 1
         return "superfluous value of a type nothing needs"
+    if kind == "unexported":
+        # an unexported provider function of a library package, reached through that package's own set
+        for s in u.sets:
+            if s["build"] or s["pkg"] == u.inj["pkg"]:
+                continue
+            cands = [n for n in s["items"] if u.items[n]["kind"] == "func" and u.items[n]["pkg"] == s["pkg"]]
+            if cands:
+                n = rng.choice(cands)
+                u.items[n]["fn"] = "prov%d" % u.items[n]["id"]
+                return "provider %s of package %s is unexported" % (u.items[n]["fn"], s["pkg"])
+        return None
     if kind == "neederr":
         if not any(it.get("err") for it in u.items if it["kind"] == "func"):
             return None
